@@ -202,6 +202,16 @@ def run_fn(job):
         elif fn in ('block_model', 'erdos_renyi', 'albert_barabasi', 'watts_strogatz'):
             from sknetwork.data import models
             r = getattr(models, fn)(**kw)
+        elif ':' in fn:
+            # generic public function "package.module:name" called on the graph (plus keyword arguments)
+            modname, name = fn.split(':')
+            f = getattr(importlib.import_module('sknetwork.' + modname), name)
+            pos = [g]
+            if job.get('labels_from'):
+                modn2, cls2 = job['labels_from'].split(':')
+                est = getattr(importlib.import_module('sknetwork.' + modn2), cls2)()
+                pos.append(est.fit_predict(g))
+            r = f(*pos, **kw)
         else:
             raise KeyError(fn)
         return {'outcome': 'ok', 'state': canon(r)}
